@@ -495,14 +495,17 @@ def _process_child_attrs(cls, retval, kwargs):
                 logger.warning("Overriding child_attrs_all['exc'] to True "
                                                                   "for %r", cls)
 
+            # work on copies: these dicts belong to the caller
+            child_attrs_all = dict(child_attrs_all)
             child_attrs_all.update(D_EXC)
 
         # update child_attrs_noexc with exc=False
-        for k, v in child_attrs_noexc.items():
+        for k, v in list(child_attrs_noexc.items()):
             if 'exc' in v:
                 logger.warning("Overriding 'exc' for %s.%s from "
                          "child_attrs_noexc with False", cls.get_type_name(), k)
 
+            v = child_attrs_noexc[k] = dict(v)
             v['exc'] = False
 
         # update child_attrs with data from child_attrs_noexc
